@@ -1143,6 +1143,69 @@ func completeRun(sysName string, other string, seed int64) ([]cEvent, error) {
 
 // ---- scale scenarios: single-client histories that cross a count or size threshold, validated by TraceConc ----
 
+// idBoundaryRun: uploads whose server-issued ids straddle a change of length (should ids be counters: 9 | 10, 99 | 100)
+// pending on ONE key at the same time, with parts in each; they are completed and aborted in every order position,
+// and the others must stay what they were (their parts are uploaded again and they are completed in turn).
+func idBoundaryRun(sysName string, seed int64) ([]cEvent, error) {
+	cr, reset, err := newConcRun(sysName, false, seed, false)
+	if err != nil {
+		return nil, err
+	}
+	defer cr.sys.Close()
+	reset.Scenario = "upload-id-boundary"
+	cr.record(reset)
+	r := rand.New(rand.NewSource(seed))
+	cr.sizes = []int{9, 17}
+	k1, k2 := keyBytes("k1"), keyBytes("k2")
+	initiate := func(k []interface{}) string {
+		op := Op{"op": "Initiate", "b": concBucket, "k": k, "meta": []interface{}{}, "uid": ""}
+		cr.doOp("1", op, nil, nil, nil)
+		return op.S("uid")
+	}
+	natom := 0
+	part := func(k []interface{}, uid string, n int) []interface{} {
+		natom++
+		name := fmt.Sprintf("b%d", natom)
+		body := cr.atom(name, r)
+		cr.doOp("1", Op{"op": "UploadPart", "b": concBucket, "k": k, "uid": uid, "n": float64(n), "body": []interface{}{name}}, body, nil, nil)
+		return []interface{}{map[string]interface{}{"n": float64(n), "body": []interface{}{name}}}
+	}
+	for _, boundary := range []int{9, 99} {
+		// bring the number of uploads ever initiated to boundary-2, then four uploads on k1 around the boundary
+		var uids []string
+		var lists [][]interface{}
+		total := 0
+		if boundary == 99 {
+			total = 13 // (what the first round initiated)
+		}
+		for total < boundary-2 {
+			u := initiate(k2)
+			cr.doOp("1", Op{"op": "Abort", "b": concBucket, "k": k2, "uid": u}, nil, nil, nil)
+			total++
+		}
+		for i := 0; i < 4; i++ {
+			u := initiate(k1)
+			uids = append(uids, u)
+			lists = append(lists, part(k1, u, 1))
+		}
+		// complete the third, abort the second, then the remaining two must still be whole
+		cr.doOp("1", Op{"op": "Complete", "b": concBucket, "k": k1, "uid": uids[2], "list": lists[2], "vid": ""}, nil, nil, nil)
+		cr.doOp("1", Op{"op": "GetObject", "b": concBucket, "k": k1}, nil, nil, nil)
+		cr.doOp("1", Op{"op": "Abort", "b": concBucket, "k": k1, "uid": uids[1]}, nil, nil, nil)
+		for _, i := range []int{3, 0} {
+			l2 := part(k1, uids[i], 2)
+			cr.doOp("1", Op{"op": "Complete", "b": concBucket, "k": k1, "uid": uids[i], "list": append(append([]interface{}{}, lists[i]...), l2...), "vid": ""}, nil, nil, nil)
+			cr.doOp("1", Op{"op": "GetObject", "b": concBucket, "k": k1}, nil, nil, nil)
+		}
+		// everything named again: all four are gone now
+		for _, u := range uids {
+			cr.doOp("1", Op{"op": "Abort", "b": concBucket, "k": k1, "uid": u}, nil, nil, nil)
+		}
+	}
+	cr.record(cr.finalSnapshot([]string{"k1", "k2"}))
+	return cr.sorted(), nil
+}
+
 // bigMultipartRun: one upload with more than a thousand parts (the listing page limit), completed with all of
 // them, and the object read back.
 func bigMultipartRun(sysName string, nparts int, seed int64) ([]cEvent, error) {
@@ -1317,6 +1380,8 @@ func cmdConc(args []string) {
 				switch sc {
 				case "multipart":
 					run = func() ([]cEvent, error) { return bigMultipartRun(sysName, 1003, *seed) }
+				case "idboundary":
+					run = func() ([]cEvent, error) { return idBoundaryRun(sysName, *seed) }
 				case "counter":
 					run = func() ([]cEvent, error) { return versionCounterRun(sysName, 99990, *seed) }
 				case "huge":
